@@ -158,7 +158,7 @@ SMOOTH = {
     'gammaln': _S(mpmath.loggamma, scipy.special.gammaln, rng=(0.05, 8.0), slow=True, cap=(10, 14), maxel=2),
     'psi': _S(_mp_psi(0), scipy.special.psi, rng=(-4.9, 6.0), holes=_POLES, slow=True, cap=(10, 14), maxel=2),
     'polygamma': _S(_mp_psi, _np_polygamma, rng=(-4.9, 6.0), holes=_POLES, slow=True, cap=(10, 14), extras='polygamma', maxel=2),
-    'hyperu': _S(_mp_hyperu, _np_hyperu, rng=(0.3, 4.0), slow=True, cap=(8, 12), tol=1e-7, extras='hyperu', maxel=2),
+    'hyperu': _S(_mp_hyperu, _np_hyperu, rng=(0.3, 4.0), slow=True, cap=(7, 12), tol=1e-7, extras='hyperu', maxel=2),
 }
 
 # piecewise constant / linear: name -> (NumPy function of order 0, jump class)
@@ -263,21 +263,26 @@ def _scale(name, extras, v, n, ref):
     return max(1.0, float(abs(ref)), abs(v) * float(abs(nxt)))
 
 
-def _check_values(what, got, refs, scales, shape, tol, stats):
-    """got: returned object; refs: list of mpf per element (row-major); scales: list of float"""
+def _check_values(what, got, refs, scale_fn, shape, tol, stats):
+    """got: returned object; refs: list of mpf per element (row-major); scale_fn(k): conditioning-aware scale of
+    element k (needs the reference of order n+1: only evaluated when the plain test against max(1, |ref|) fails)"""
     a = _as_real_array(got, what)
     if a.shape != tuple(shape):
         raise Violation('%s: result has shape %s, argument has shape %s' % (what, a.shape, tuple(shape)))
     flat = a.ravel()
     for k, ref in enumerate(refs):
+        if ref is None or not mpmath.isfinite(ref):
+            raise Inconclusive('non-finite reference')
         g = flat[k]
         gi = complex(g).imag
         gr = float(complex(g).real)
-        scale = scales[k]
         if not np.isfinite(gr) or not np.isfinite(gi):
             raise Violation('%s: element %d is %r, reference %s' % (what, k, g, mpmath.nstr(ref, 17)))
-        err = float(abs(mpf(gr) - ref)) / scale
-        err = max(err, abs(gi) / scale)
+        abs_err = max(float(abs(mpf(gr) - ref)), abs(gi))
+        scale = max(1.0, float(abs(ref)))
+        if abs_err > tol * scale:
+            scale = scale_fn(k)
+        err = abs_err / scale
         stats.err(err)
         if err > tol:
             raise Violation('%s: element %d is %r, reference %s (error %.2e relative to %.3e = max(1, |ref|, |x f^(n+1)(x)|), tol %.0e)'
@@ -325,10 +330,11 @@ def _prop_smooth(case, stats):
     with mp.workdps(DPS):
         els = _elements(x)
         refs = [_ref(name, extras, v, n) for v in els]
-        scales = [_scale(name, extras, v, n, r) for v, r in zip(els, refs)]
-        _check_values(what, ret, refs, scales, np.shape(x), spec['tol'], stats)
+        def scale_fn(k):
+            return _scale(name, extras, els[k], n, refs[k])
+        _check_values(what, ret, refs, scale_fn, np.shape(x), spec['tol'], stats)
         if out is not None:
-            _check_values(what + ' [contents of out]', out, refs, scales, np.shape(x), spec['tol'], stats)
+            _check_values(what + ' [contents of out]', out, refs, scale_fn, np.shape(x), spec['tol'], stats)
     if n == 0:
         # order 0 is the function itself
         direct = spec['np'](*extras)(x)
@@ -553,9 +559,9 @@ def buckets(tier):
         if name in SMOOTH:
             slow = SMOOTH[name]['slow']
             bl.append(Bucket(name, (lambda name=name: smooth_cases(name, tier)), prop_smooth,
-                             {'quick': 20 if slow else 120, 'thorough': 60 if slow else 1500},
+                             {'quick': (10 if name == 'hyperu' else 20) if slow else 120, 'thorough': 60 if slow else 1500},
                              nontrivial=_nontrivial, classes=_classes,
-                             shards={'quick': 4 if slow else 1, 'thorough': 12 if slow else 2},
+                             shards={'quick': (8 if name == 'hyperu' else 4) if slow else 1, 'thorough': 12 if slow else 2},
                              weight=60.0 if slow else 1.0))
         elif name in PIECEWISE:
             bl.append(Bucket(name, (lambda name=name: piecewise_cases(name, tier)), prop_piecewise,
